@@ -820,6 +820,7 @@ def check_wrappers(ctx, rs, sc, S, L_BFGS_B, minimize, maximize, LS):
             except Exception as e:
                 ctx.fail("LS:jacfun-none:raises", d, ref["x"].tolist(), repr(e)[:120],
                          "LS with the documented default jacfun=None raises instead of returning SciPy's result")
+    check_wrapper_kwargs(ctx, rs, sc, S, minimize, maximize)
     # ---- L_BFGS_B translation table with a scripted SciPy (all warnflags), against the model's table
     orig = S.fmin_l_bfgs_b
     try:
@@ -844,6 +845,146 @@ def check_wrappers(ctx, rs, sc, S, L_BFGS_B, minimize, maximize, LS):
                     ctx.fail("L_BFGS_B:table", d, exp, got, "wrapper does not pass SciPy's result through unchanged")
     finally:
         S.fmin_l_bfgs_b = orig
+
+
+def same_deep(a, b):
+    if isinstance(a, (list, tuple)) and isinstance(b, (list, tuple)) and (len(a) == 0 or not np.isscalar(a[0])):
+        return len(a) == len(b) and all(same_deep(x, y) for x, y in zip(a, b))
+    try:
+        return bool(same(a, b))
+    except Exception:
+        return False
+
+
+def check_wrapper_kwargs(ctx, rs, sc, S, minimize, maximize):
+    """every keyword combination the wrappers forward: result == direct scipy.optimize.minimize with the same kwargs,
+    the call handed to SciPy == the model's `minimizeCall`, and the returned point is feasible and not worse."""
+    import types
+    from scipy.optimize import Bounds, LinearConstraint
+    DF = ("Nelder-Mead", "Powell", "COBYLA")
+    # the model's table for every (wrapper, method, gradient, keyword list) used below, in one driver call
+    KW = [(None, []), (None, ["bounds"]), (None, ["constraints"]), (None, ["bounds", "constraints"]),
+          (None, ["bounds", "constraints", "options"]), (None, ["tol", "options"]), ("L-BFGS-B", ["bounds", "options"]),
+          ("L-BFGS-B", ["bounds", "tol"]), ("TNC", ["bounds"]), ("SLSQP", ["bounds", "constraints"]), ("SLSQP", ["constraints", "tol"]),
+          ("SLSQP", ["constraints"]), ("Newton-CG", ["hess"]), ("trust-ncg", ["hess", "options"]), ("BFGS", ["options", "callback"]),
+          ("CG", ["tol"]), ("Nelder-Mead", ["bounds"]), ("COBYLA", ["constraints"])]
+    pre = [f"mincall {w} {m if m is not None else 'None'} {hg} {','.join(k) if k else '_'}" for w in ("min", "max") for m, k in KW for hg in (0, 1)]
+    for ln, out in zip(pre, ctx.lean.drive(pre)):
+        _MC[ln] = out
+    for rep in range(2 * sc):
+        n = 2 + rep % 2
+        B = gen_matrix(rs, n + 1, n, False); c = rs.randint(-3, 4, size=n + 1).astype(float)
+        f = lambda x, B=B, c=c: float(0.5 * np.sum((B @ x - c) ** 2))
+        g = lambda x, B=B, c=c: B.T @ (B @ x - c)
+        H = lambda x, B=B: B.T @ B
+        xs = np.linalg.solve(B.T @ B, B.T @ c)              # unconstrained minimiser
+        x0 = np.zeros(n)
+        # a linear inequality that is ACTIVE at the constrained optimum: sum(x) <= sum(xs) - 1, feasible at a shifted start
+        lim = float(np.sum(xs) - 1.0)
+        x0c = np.full(n, (lim - 1.0) / n)
+        con_fun = lambda x, lim=lim: lim - np.sum(x)
+        con_jac = lambda x, n=n: -np.ones(n)
+        cons = [{"type": "ineq", "fun": con_fun, "jac": con_jac}]
+        lo = np.minimum(x0c, xs) - 0.5; up = xs - 0.25          # upper bounds active for the unconstrained minimiser
+        lo = np.minimum(lo, up - 0.5)
+        bnds = list(zip(lo.tolist(), up.tolist()))
+        x0b = np.clip(x0c, lo, up)
+        feas = {"bounds": lambda x: bool(np.all(x >= lo - 1e-6) and np.all(x <= up + 1e-6)),
+                "constraints": lambda x: bool(con_fun(x) >= -1e-6)}
+        cases = [
+            ("default", None, {}, x0),
+            ("default+bounds", None, {"bounds": bnds}, x0b),
+            ("default+constraints", None, {"constraints": cons}, x0c),
+            ("default+bounds+constraints", None, {"bounds": bnds, "constraints": cons}, x0b),
+            ("default+bounds+constraints+options", None, {"bounds": Bounds(lo, up), "constraints": cons, "options": {"maxiter": 200, "ftol": 1e-12}}, x0b),
+            ("default+tol+options", None, {"tol": 1e-10, "options": {"maxiter": 500}}, x0),
+            ("L-BFGS-B+bounds+options", "L-BFGS-B", {"bounds": bnds, "options": {"maxiter": 3}}, x0b),
+            ("L-BFGS-B+bounds+tol", "L-BFGS-B", {"bounds": bnds, "tol": 1e-12}, x0b),
+            ("TNC+bounds", "TNC", {"bounds": bnds}, x0b),
+            ("SLSQP+bounds+constraints", "SLSQP", {"bounds": bnds, "constraints": cons}, x0b),
+            ("SLSQP+constraints+tol", "SLSQP", {"constraints": cons, "tol": 1e-12}, x0c),
+            ("SLSQP+linear-constraint", "SLSQP", {"constraints": [LinearConstraint(np.ones((1, n)), -np.inf, lim)]}, x0c),
+            ("Newton-CG+hess", "Newton-CG", {"hess": H}, x0),
+            ("trust-ncg+hess+options", "trust-ncg", {"hess": H, "options": {"gtol": 1e-10}}, x0),
+            ("BFGS+options+callback", "BFGS", {"options": {"gtol": 1e-9, "maxiter": 50}, "callback": "CB"}, x0),
+            ("CG+tol", "CG", {"tol": 1e-9}, x0),
+            ("Nelder-Mead+bounds", "Nelder-Mead", {"bounds": bnds}, x0b),
+            ("COBYLA+constraints", "COBYLA", {"constraints": [{"type": "ineq", "fun": con_fun}]}, x0c),
+        ]
+        for wname in ("minimize", "maximize"):
+            for cname, method, kw, start in cases:
+                for withgrad in ((True, False) if method in (None, "L-BFGS-B", "SLSQP") else (method not in DF,)):
+                    if method in ("Newton-CG", "trust-ncg") and not withgrad:
+                        continue
+                    gg = g if withgrad else None
+                    desc = {"wrapper": wname, "case": cname, "method": method, "kwargs": sorted(kw), "grad": withgrad,
+                            "B": B.tolist(), "c": c.tolist(), "x0": start.tolist(), "bounds": bnds, "sum_limit": lim}
+                    ctx.case(f"wrapkw-{wname}", desc)
+                    key = f"{wname}:kwargs:{cname}"
+                    cb_ref, cb_w = [], []
+                    def mk(kw, log):
+                        k2 = dict(kw)
+                        if k2.get("callback") == "CB":
+                            k2["callback"] = lambda xk, *a: log.append(np.array(xk, dtype=float).copy())
+                        return k2
+                    with quiet():
+                        ref = sopt.minimize(f, start.copy(), jac=gg, method=method, **mk(kw, cb_ref))
+                    # record the call the wrapper hands to SciPy
+                    seen = {}
+                    real = S.opt
+                    def spy(func, x0_, jac=None, method=None, **k):
+                        seen.update(method=method, hasjac=jac is not None, kw=list(k))
+                        return real.minimize(func, x0_, jac=jac, method=method, **k)
+                    S.opt = types.SimpleNamespace(minimize=spy)
+                    try:
+                        with quiet():
+                            if wname == "minimize":
+                                sol, info = minimize(f, start.copy(), gradfunc=gg, method=method, **mk(kw, cb_w)).solve()
+                            else:
+                                nf = lambda x: -f(x)
+                                ng = (lambda x: -g(x)) if withgrad else None
+                                kk = mk(kw, cb_w)
+                                sol, info = maximize(nf, start.copy(), gradfunc=ng, method=method, **kk).solve()
+                    except Exception as e:
+                        k = f"{wname}:raises:" + (f"derivative-free:{method}" if method in DF else f"kwargs:{cname}")
+                        ctx.fail(k, desc, [ref["x"].tolist(), float(ref["fun"])], repr(e)[:100], "wrapper raises instead of returning SciPy's result")
+                        continue
+                    finally:
+                        S.opt = real
+                    sol = np.asarray(sol, dtype=float)
+                    # (a) the call: model table vs what was handed over
+                    mline = f"mincall {'min' if wname == 'minimize' else 'max'} {method if method is not None else 'None'} {int(withgrad)} {','.join(kw) if kw else '_'}"
+                    mout = model_call(ctx, mline)
+                    got_call = f"{seen.get('method') if seen.get('method') is not None else 'None'}|{int(bool(seen.get('hasjac')))}|{','.join(seen.get('kw', [])) if seen.get('kw') else '_'}"
+                    bad = []
+                    if mout != got_call:
+                        bad.append(("call", mout, got_call))
+                    # (b) every field equals the direct SciPy call
+                    for fld, a, b_ in (("x", sol, ref["x"]), ("func", info["func"], ref["fun"]), ("grad", info["grad"], ref.get("jac")),
+                                       ("nit", info["nit"], ref["nit"]), ("nfev", info["nfev"], ref["nfev"]),
+                                       ("success", info["success"], ref["success"]), ("message", info["message"], ref["message"])):
+                        if not same_deep(a, b_):
+                            bad.append((fld, str(b_)[:80], str(a)[:80]))
+                    if len(cb_ref) != len(cb_w) or any(not np.array_equal(u, v) for u, v in zip(cb_ref, cb_w)):
+                        bad.append(("callback", len(cb_ref), len(cb_w)))
+                    if bad:
+                        ctx.disagree(key, desc, [b[1] for b in bad], [b[2] for b in bad], "fields differing: " + ",".join(b[0] for b in bad))
+                        ctx.fail(key, desc, {b[0]: b[1] for b in bad}, {b[0]: b[2] for b in bad},
+                                 "wrapper does not return SciPy's result for the same keyword arguments unchanged")
+                    # (c) oracle on the returned point: feasible for what was asked, and not worse than SciPy's point
+                    if ref["success"] and np.all(np.isfinite(sol)):
+                        for what in ("bounds", "constraints"):
+                            if what in kw and feas[what](ref["x"]) and not feas[what](sol):
+                                ctx.fail(key + ":feasible", desc, f"{what} satisfied", sol.tolist(), f"returned point violates the given {what}")
+                        if f(sol) > f(ref["x"]) + 1e-8 * (1 + abs(f(ref["x"]))):
+                            ctx.fail(key + ":objective", desc, float(f(ref["x"])), float(f(sol)), "returned point is worse than SciPy's for the same call")
+
+
+_MC = {}
+def model_call(ctx, line):
+    if line not in _MC:
+        _MC[line] = ctx.lean.drive([line])[0]
+    return _MC[line]
 
 
 _LB = {}
